@@ -16,6 +16,8 @@
 //!   F   fake FS: every shape with depth <= D and <= L include lines x EVERY style assignment
 //!   U   fake FS: every shape with depth <= D and MORE than L lines x uniform style families (quick 4, thorough 10)
 //!   S   fake FS: every 1-line tree x style with the root file itself named through `dir/../dir/./main.ledger`
+//!   G   fake+real FS: the other glob metacharacters `[0-9]` `[ab]` `[!x]` `?` (8 styles: same dir / sub-dir), with
+//!       decoy siblings the class must not match; GN: such a pattern matching only its decoys must fail
 //!   N   fake FS: an include that matches nothing (every 1-line tree x style; nested 2-line shapes x uniform style)
 //!   C   fake FS: recursive include (chain depth k, back edge to ancestor j, chain style, back-edge spelling)
 //!   X   fake FS: the same file included twice through two different spellings (sequence is DON'T-CARE)
@@ -41,8 +43,8 @@ use crate::oka;
 pub const DEF: CheckDef = CheckDef {
     id: "C11",
     run,
-    technique: "bounded-exhaustive enumeration of include trees: one order-sensitive 6-entry ledger cut at every subset of its 5 entry boundaries and hung into every include tree (own entries may surround include lines; one include line may glob several sibling files) within depth/line bounds x every assignment of 10 path styles to the include lines; the real Loader (FakeFileSystem and real file system) and the real report/CLI code run on every tree and are compared with the unsplit ledger",
-    rule: "case = (tree shape, path style per include line[, file system, creation order, root spelling]). quick: depth <= 2 and <= 2 include lines x all style assignments, plus all 48 097 shapes of depth <= 2 x 4 uniform style families; thorough: depth <= 3 and <= 3 lines x all style assignments, plus all 383 084 shapes of depth <= 3 x 10 uniform style families. Styles: same dir, sub-dir, ../, ./x/../y, absolute, glob prefix*, glob *suffix, glob sub/*.ledger, glob ../*suffix, glob over several directories */m.dat; a dot-file (dot-directory) holding an unbalanced transaction sits next to every glob; FakeFileSystem returns glob matches reverse-sorted; on the real FS files are created in two scrambled orders. Further families: include matching nothing (must fail), recursive include (must fail, not crash), identical include twice and diamond (must not be reported as recursive), two spellings of one file (DON'T-CARE). states = trees executed, transitions = loader/report/CLI runs compared with the unsplit ledger",
+    technique: "bounded-exhaustive enumeration of include trees: one order-sensitive 6-entry ledger cut at every subset of its 5 entry boundaries and hung into every include tree (own entries may surround include lines; one include line may glob several sibling files) within depth/line bounds x every assignment of 10 path styles to the include lines, plus 8 further styles for the remaining glob metacharacters ([0-9], [ab], [!x], ? in the same and in a sub-directory); the real Loader (FakeFileSystem and real file system) and the real report/CLI code run on every tree and are compared with the unsplit ledger",
+    rule: "case = (tree shape, path style per include line[, file system, creation order, root spelling]). quick: depth <= 2 and <= 2 include lines x all style assignments, plus all 48 097 shapes of depth <= 2 x 4 uniform style families; thorough: depth <= 3 and <= 3 lines x all style assignments, plus all 383 084 shapes of depth <= 3 x 10 uniform style families. Styles: same dir, sub-dir, ../, ./x/../y, absolute, glob prefix*, glob *suffix, glob sub/*.ledger, glob ../*suffix, glob over several directories */m.dat; family G adds rN_[0-9].dat, sN_[ab..].dat, [!x]_nN.dat, ?_qN.dat (same dir and mN/ sub-dir, the first three without any * or ?) with siblings the class must not match: quick every 1-line tree x 8 and every 2-line shape x 8 uniform, thorough every <=2-line shape x every assignment over all 18 styles using one of them; a dot-file (dot-directory) holding an unbalanced transaction sits next to every glob; FakeFileSystem returns glob matches reverse-sorted; on the real FS files are created in two scrambled orders. Further families: include matching nothing (must fail), recursive include (must fail, not crash), identical include twice and diamond (must not be reported as recursive), two spellings of one file (DON'T-CARE). states = trees executed, transitions = loader/report/CLI runs compared with the unsplit ledger",
     assumptions: &[
         "entry identity = PartialEq of syntax::plain::LedgerEntry against the parsed unsplit ledger; report identity = bytes of the balance/register lines (same formatting code as cli BalanceCmd/RegisterCmd on FakeFileSystem, the real CLI in-process on the real file system)",
         "file names inside one glob are single-digit keys, so every reasonable notion of 'sorted path order' agrees; component-wise vs byte-wise order of multi-directory matches, case folding, symlinks and non-UTF-8 names are not exercised",
@@ -90,18 +92,37 @@ enum Style {
     GlobSub,
     GlobUp,
     GlobDirs,
+    // the other glob metacharacters (family G): character range, character set, negated class, single character;
+    // the first three contain neither `*` nor `?`
+    ClsRange,
+    ClsSet,
+    ClsNeg,
+    Qmark,
+    SubClsRange,
+    SubClsSet,
+    SubClsNeg,
+    SubQmark,
 }
 use Style::*;
-const NSTYLES: usize = 10;
-const ALL: [Style; NSTYLES] = [Same, Sub, Up, DotMix, Abs, GlobPrefix, GlobStar, GlobSub, GlobUp, GlobDirs];
+/// the styles of the main families
+const NCORE: usize = 10;
+const ALL: [Style; NCORE] = [Same, Sub, Up, DotMix, Abs, GlobPrefix, GlobStar, GlobSub, GlobUp, GlobDirs];
 const GLOBS: [Style; 5] = [GlobPrefix, GlobStar, GlobSub, GlobUp, GlobDirs];
+/// `[0-9]`, `[ab]`, `[!x]`, `?` in the same directory and in a sub-directory
+const META: [Style; 8] = [ClsRange, ClsSet, ClsNeg, Qmark, SubClsRange, SubClsSet, SubClsNeg, SubQmark];
+const NSTYLES: usize = 18;
+const EVERY: [Style; NSTYLES] = [Same, Sub, Up, DotMix, Abs, GlobPrefix, GlobStar, GlobSub, GlobUp, GlobDirs, ClsRange, ClsSet, ClsNeg, Qmark, SubClsRange, SubClsSet, SubClsNeg, SubQmark];
+const EVERY_GLOB: [Style; 13] = [GlobPrefix, GlobStar, GlobSub, GlobUp, GlobDirs, ClsRange, ClsSet, ClsNeg, Qmark, SubClsRange, SubClsSet, SubClsNeg, SubQmark];
 
 impl Style {
     fn is_glob(self) -> bool {
-        matches!(self, GlobPrefix | GlobStar | GlobSub | GlobUp | GlobDirs)
+        !matches!(self, Same | Sub | Up | DotMix | Abs)
+    }
+    fn is_meta(self) -> bool {
+        META.contains(&self)
     }
     fn idx(self) -> usize {
-        ALL.iter().position(|s| *s == self).unwrap()
+        EVERY.iter().position(|s| *s == self).unwrap()
     }
     /// the glob style used for multi-child lines in the uniform family of `self`
     fn glob_of(self) -> Style {
@@ -305,8 +326,9 @@ fn count_lines(n: &Node) -> usize {
 struct Line {
     style: Style,
     text: String,
-    /// dot-file that sits where the pattern would match it but for the leading dot
-    hidden: Option<String>,
+    /// decoys: dot-files that sit where the pattern would match them but for the leading dot, and siblings that a
+    /// character class / `?` must not match
+    hidden: Vec<String>,
     multi: bool,
 }
 
@@ -374,35 +396,35 @@ impl<'a> Builder<'a> {
                     let first_fid = self.l.files.len();
                     let lit = if kill { format!("missing{}.dat", lid) } else { format!("c{}.dat", first_fid) };
                     let key = |k: usize| (b'1' + k as u8) as char;
-                    let (cdir, text, names, hidden): (String, String, Vec<String>, Option<String>) = match st {
-                        Same => (dir.to_string(), lit.clone(), vec![lit], None),
-                        Sub => (format!("{}/s{}", dir, lid), format!("s{}/{}", lid, lit), vec![lit], None),
-                        Up => (up(), format!("../{}", lit), vec![lit], None),
+                    let (cdir, text, names, hidden): (String, String, Vec<String>, Vec<String>) = match st {
+                        Same => (dir.to_string(), lit.clone(), vec![lit], vec![]),
+                        Sub => (format!("{}/s{}", dir, lid), format!("s{}/{}", lid, lit), vec![lit], vec![]),
+                        Up => (up(), format!("../{}", lit), vec![lit], vec![]),
                         DotMix => {
                             self.l.dirs.insert(format!("{}/x{}", dir, lid));
-                            (dir.to_string(), format!("./x{}/../{}", lid, lit), vec![lit], None)
+                            (dir.to_string(), format!("./x{}/../{}", lid, lit), vec![lit], vec![])
                         }
                         Abs => {
                             let d = format!("{}/abs{}/a1/a2", self.base, lid);
-                            (d.clone(), format!("{}/{}", d, lit), vec![lit], None)
+                            (d.clone(), format!("{}/{}", d, lit), vec![lit], vec![])
                         }
                         GlobPrefix => (
                             dir.to_string(),
                             format!("p{}_*.dat", lid),
                             (0..children.len()).map(|k| format!("p{}_{}.dat", lid, key(k))).collect(),
-                            Some(format!("{}/.p{}_0.dat", dir, lid)),
+                            vec![format!("{}/.p{}_0.dat", dir, lid)],
                         ),
                         GlobStar => (
                             dir.to_string(),
                             format!("*_g{}.dat", lid),
                             (0..children.len()).map(|k| format!("{}_g{}.dat", key(k), lid)).collect(),
-                            Some(format!("{}/.0_g{}.dat", dir, lid)),
+                            vec![format!("{}/.0_g{}.dat", dir, lid)],
                         ),
                         GlobSub => (
                             format!("{}/s{}", dir, lid),
                             format!("s{}/*.ledger", lid),
                             (0..children.len()).map(|k| format!("{}.ledger", key(k))).collect(),
-                            Some(format!("{}/s{}/.hidden.ledger", dir, lid)),
+                            vec![format!("{}/s{}/.hidden.ledger", dir, lid)],
                         ),
                         GlobUp => {
                             let p = up();
@@ -410,7 +432,7 @@ impl<'a> Builder<'a> {
                                 p.clone(),
                                 format!("../*_u{}.dat", lid),
                                 (0..children.len()).map(|k| format!("{}_u{}.dat", key(k), lid)).collect(),
-                                Some(format!("{}/.0_u{}.dat", p, lid)),
+                                vec![format!("{}/.0_u{}.dat", p, lid)],
                             )
                         }
                         // one glob over several directories: member k lives in its own directory
@@ -418,15 +440,45 @@ impl<'a> Builder<'a> {
                             dir.to_string(),
                             format!("*_d{}/m.dat", lid),
                             (0..children.len()).map(|k| format!("{}_d{}/m.dat", key(k), lid)).collect(),
-                            Some(format!("{}/.0_d{}/m.dat", dir, lid)),
+                            vec![format!("{}/.0_d{}/m.dat", dir, lid)],
                         ),
+                        ClsRange | ClsSet | ClsNeg | Qmark | SubClsRange | SubClsSet | SubClsNeg | SubQmark => {
+                            let n = children.len();
+                            let (sub, kind) = match st {
+                                ClsRange => (false, 0),
+                                ClsSet => (false, 1),
+                                ClsNeg => (false, 2),
+                                Qmark => (false, 3),
+                                SubClsRange => (true, 0),
+                                SubClsSet => (true, 1),
+                                SubClsNeg => (true, 2),
+                                _ => (true, 3),
+                            };
+                            let cdir = if sub { format!("{}/m{}", dir, lid) } else { dir.to_string() };
+                            let pre = if sub { format!("m{}/", lid) } else { String::new() };
+                            let letter = |k: usize| (b'a' + k as u8) as char;
+                            // (pattern, member names, decoy names)
+                            let (pat, names, decoys): (String, Vec<String>, Vec<String>) = match kind {
+                                // digits only; a letter-keyed sibling must stay out
+                                0 => (format!("r{}_[0-9].dat", lid), (0..n).map(|k| format!("r{}_{}.dat", lid, key(k))).collect(), vec![format!("r{}_x.dat", lid)]),
+                                // exactly the listed letters (at least `[ab]`)
+                                1 => (
+                                    format!("s{}_[{}].dat", lid, (0..n.max(2)).map(letter).collect::<String>()),
+                                    (0..n).map(|k| format!("s{}_{}.dat", lid, letter(k))).collect(),
+                                    vec![format!("s{}_z.dat", lid)],
+                                ),
+                                // anything but x, at the start of the name: neither `x_..` nor the dot-file `._..`
+                                2 => (format!("[!x]_n{}.dat", lid), (0..n).map(|k| format!("{}_n{}.dat", key(k), lid)).collect(), vec![format!("x_n{}.dat", lid), format!("._n{}.dat", lid)]),
+                                // exactly one character, at the start of the name: neither `10_..` nor the dot-file `._..`
+                                _ => (format!("?_q{}.dat", lid), (0..n).map(|k| format!("{}_q{}.dat", key(k), lid)).collect(), vec![format!("10_q{}.dat", lid), format!("._q{}.dat", lid)]),
+                            };
+                            let decoys = decoys.into_iter().map(|d| format!("{}/{}", cdir, d)).collect();
+                            (cdir, format!("{}{}", pre, pat), names, decoys)
+                        }
                     };
                     content.push_str(&format!("include {}\n\n", text));
-                    if let Some(h) = &hidden {
+                    for h in &hidden {
                         self.l.hidden.insert(h.clone(), HIDDEN.to_string());
-                        if cdir != dir {
-                            self.l.dirs.insert(cdir.clone());
-                        }
                     }
                     self.l.lines.push(Line { style: st, text, hidden, multi });
                     if kill {
@@ -481,7 +533,7 @@ fn render(l: &Laid) -> String {
         s.push_str(&format!("=== {} ===\n{}", p, c));
     }
     for (p, c) in &l.hidden {
-        s.push_str(&format!("=== {} (dot-file) ===\n{}", p, c));
+        s.push_str(&format!("=== {} (decoy, must not be loaded) ===\n{}", p, c));
     }
     for d in &l.dirs {
         s.push_str(&format!("=== {}/ (directory) ===\n", d));
@@ -720,8 +772,9 @@ fn judge_sequence(fs: &str, l: &Laid, b: &Baseline, seen: &Seen, res: &Result<()
     }
     if let Some((p, _)) = seen.entries.iter().find(|e| e.1 == HID) {
         let np = norm(p);
-        let st = l.lines.iter().find(|ln| ln.hidden.as_deref() == Some(np.as_str())).map(|ln| format!("{:?}", ln.style)).unwrap_or_else(|| "unknown".into());
-        return Some(Outcome::violation(format!("dot-file-loaded/{}/{}", fs, st), show()));
+        let st = l.lines.iter().find(|ln| ln.hidden.iter().any(|h| *h == np)).map(|ln| format!("{:?}", ln.style)).unwrap_or_else(|| "unknown".into());
+        let dot = np.rsplit('/').take(2).any(|c| c.starts_with('.'));
+        return Some(Outcome::violation(format!("{}/{}/{}", if dot { "dot-file-loaded" } else { "file-outside-the-pattern-loaded" }, fs, st), show()));
     }
     if l.nomatch.is_some() {
         // delivered entries must be a prefix of the expansion up to the failing include
@@ -1060,8 +1113,13 @@ fn judge_real_nomatch(env: &RealEnv, b: &Baseline, l: &Laid) -> Outcome {
 // Enumeration
 
 /// all style assignments for the lines of a shape (literal+glob for single-child lines, globs for groups)
-fn for_each_styles(multi: &[bool], mut f: impl FnMut(&[Style])) {
-    let opts: Vec<&[Style]> = multi.iter().map(|m| if *m { &GLOBS[..] } else { &ALL[..] }).collect();
+fn for_each_styles(multi: &[bool], f: impl FnMut(&[Style])) {
+    for_each_styles_in(multi, &ALL, &GLOBS, f)
+}
+
+/// all assignments with `singles` for one-child lines and `multis` for multi-child lines
+fn for_each_styles_in(multi: &[bool], singles: &[Style], multis: &[Style], mut f: impl FnMut(&[Style])) {
+    let opts: Vec<&[Style]> = multi.iter().map(|m| if *m { multis } else { singles }).collect();
     let mut idx = vec![0usize; multi.len()];
     let mut cur: Vec<Style> = opts.iter().map(|o| o[0]).collect();
     loop {
@@ -1111,7 +1169,7 @@ impl Tally {
         for (d, n) in by_depth {
             ctx.fact(&format!("{}_trees_depth{}", prefix, d), n);
         }
-        for (i, s) in ALL.iter().enumerate() {
+        for (i, s) in EVERY.iter().enumerate() {
             ctx.fact(&format!("{}_include_edges_{:?}", prefix, s), self.edges_by_style[i]);
         }
         ctx.fact(&format!("{}_distinct_cut_sets_of_32", prefix), self.cut_sets.len() as u64);
@@ -1202,6 +1260,56 @@ fn run_inner(ctx: &mut Ctx) {
         });
     }
     ctx.fact("family_S_trees", n_s);
+
+    // ---- G: the other glob metacharacters `[0-9]` `[ab]` `[!x]` `?`, same and sub-directory (fake FS) ----
+    //  quick:    every 1-line tree x 8 meta styles; every 2-line shape x 8 uniform meta styles
+    //  thorough: every shape with <= 2 lines x every assignment over all 18 styles that uses a meta style;
+    //            every shape of depth <= 2 with more lines x 8 uniform meta styles
+    let thorough = max_depth >= 3;
+    let mut n_g = 0u64;
+    for (shape, lines) in all_shapes.iter().filter(|s| s.1 >= 1 && shape_depth(&s.0) <= 2) {
+        let depth = shape_depth(shape);
+        let multi = line_multi(shape);
+        let cuts = cut_mask(shape);
+        let mut one = |st: &[Style], ctx: &mut Ctx, fake_tally: &mut Tally| {
+            n_g += 1;
+            fake_tally.add(depth, st, cuts);
+            if !ctx.next_is_mine() {
+                ctx.skip_cases(1);
+                return;
+            }
+            let l = layout(shape, st, FAKE_BASE, None);
+            ctx.case(|| format!("[G fake FS] shape {} styles [{}]\n{}", shape, style_names(st), render(&l)), || judge_fake_split(&b, &l, depth, 0));
+        };
+        if *lines == 1 || (thorough && *lines == 2) {
+            for_each_styles_in(&multi, &EVERY, &EVERY_GLOB, |st| {
+                if st.iter().any(|x| x.is_meta()) {
+                    one(st, ctx, &mut fake_tally);
+                }
+            });
+        } else if *lines == 2 || thorough {
+            for u in META {
+                let st = vec![u; multi.len()];
+                one(&st, ctx, &mut fake_tally);
+            }
+        }
+    }
+    ctx.fact("family_G_trees", n_g);
+    // GN: a meta-style include that matches nothing although its decoys exist: every 1-line tree x meta style
+    let mut n_gn = 0u64;
+    for (shape, _) in all_shapes.iter().filter(|s| s.1 == 1) {
+        let multi = line_multi(shape);
+        for_each_styles_in(&multi, &META, &META, |st| {
+            n_gn += 1;
+            if !ctx.next_is_mine() {
+                ctx.skip_cases(1);
+                return;
+            }
+            let l = layout(shape, st, FAKE_BASE, Some(0));
+            ctx.case(|| format!("[GN fake FS, line 0 matches nothing] shape {} styles [{}]\n{}", shape, style_names(st), render(&l)), || judge_fake_nomatch(&b, &l));
+        });
+    }
+    ctx.fact("family_GN_trees", n_gn);
     fake_tally.emit(ctx, "fake");
 
     // ---- N: include that matches nothing (fake FS) ----
@@ -1403,6 +1511,27 @@ fn run_inner(ctx: &mut Ctx) {
         }
     }
     let _ = (grp3, grp3_scrambled);
+    // RG: the other glob metacharacters on the real FS: every 1-line tree x 8 meta styles x 2 creation orders;
+    // (thorough) every 2-line shape x 8 uniform meta styles
+    for (shape, lines) in all_shapes.iter().filter(|s| s.1 == 1 || (max_depth >= 3 && s.1 == 2)) {
+        let depth = shape_depth(shape);
+        let multi = line_multi(shape);
+        let cuts = cut_mask(shape);
+        for u in META {
+            let st = vec![u; *lines];
+            for order in 0..2 {
+                n_r += 1;
+                real_tally.add(depth, &st, cuts);
+                if !ctx.next_is_mine() {
+                    ctx.skip_cases(1);
+                    continue;
+                }
+                let l = layout(shape, &st, &real_base, None);
+                ctx.case(|| format!("[RG real FS, creation order {}] shape {} styles [{}]\n{}", order, shape, style_names(&st), render(&l)).replace(&env.scratch, "<scratch>"), || judge_real_split(&env, &b, &l, depth, order, 0));
+            }
+        }
+        let _ = multi;
+    }
     ctx.fact("family_R_cases", n_r);
     real_tally.emit(ctx, "real");
 
@@ -1410,7 +1539,7 @@ fn run_inner(ctx: &mut Ctx) {
     let mut n_rn = 0u64;
     for (shape, _) in all_shapes.iter().filter(|s| s.1 == 1) {
         let multi = line_multi(shape);
-        for_each_styles(&multi, |st| {
+        for_each_styles_in(&multi, &EVERY, &EVERY_GLOB, |st| {
             n_rn += 1;
             if !ctx.next_is_mine() {
                 ctx.skip_cases(1);
